@@ -1,6 +1,7 @@
 import Mimium.Proofs.Layout
 import Mimium.Proofs.FlatTreeTop
 import Mimium.Proofs.FlatTreeLabel
+import Mimium.Proofs.FlatTreeEval
 /-!
 # C05 — compile-time state layout matches run-time state accesses
 
@@ -32,9 +33,15 @@ layout with distinct sibling sites, every conforming tree, every operand payload
 * `C05_same_words_same_behaviour`: trees with equal flat words are indistinguishable by any sequence of calls;
 * `C05_eval_mem_is_treeCell`, `C05_eval_delay_is_treeCell`, `C05_eval_call_is_treeCell`: the per-site tree operations
   ARE the state operations of `Core.eval` (cases `mem`, `delay`, `call`).
-NOT proved: that the sites a given function BODY evaluates are exactly the cells of its published layout, in layout order
-(this is mirgen's bookkeeping; it is judged on the recorded traces by `conforms`), i.e. `eval` of a whole body is not
-proved equal to `treeNode` of its layout; state inside `if` arms (finding F3) breaks that correspondence on the pinned tree.
+* `C05_eval_respects_agreement` (induction over the fuel, all 18 constructs of `Core.eval`, closures and assignment
+  included): for an expression whose stateful sites are COVERED by a labelled layout (`Covers`: every `mem` / `delay n` / call
+  site owns a cell of its kind, callee bodies covered by the child's cells), evaluation from two trees that agree on the
+  layout's cells gives the same value and store (or the same error) and agreeing trees; `C05_same_words_agree`: conforming
+  trees with the same flat words agree.  Hence `C05_same_words_same_eval_future`: the values a function instance returns,
+  sample after sample, are a function of its flat state words alone — the flat storage loses nothing the evaluator can see.
+NOT proved: that the sites a given function BODY evaluates are visited in layout order, once each (this is mirgen's
+bookkeeping; it is judged on the recorded traces by `conforms`), i.e. `eval` of a whole body is not proved equal to
+`treeNode` of its layout with the payload it computes; state inside `if` arms (finding F3) breaks that on the pinned tree.
 -/
 namespace Mimium.Layout
 open Mimium.StateTree
@@ -244,6 +251,63 @@ theorem C05_eval_call_is_treeCell (fuel : Nat) (P : Prog) (rt : Rt) (env : Env) 
   cases hsv : (st1.childAt site).selfv <;> cases hsh : d.selfShape <;>
     simp only [initSelf, hsv, hsh] at hbody <;>
     simp [hbody, treeCell, treeNodeWith, initSelf, hsv]
+
+/-- **the evaluator cannot tell agreeing trees apart.**  For every program, every expression covered by the layout
+cells (`Covers`), every fuel, environment, store: evaluation from two trees with the same `self` that agree on every
+cell of the layout (`AgreeN`: same `memAt`, `ringAt`, recursively agreeing children) yields the same error, or the
+same value, the same store and agreeing trees -/
+theorem C05_eval_respects_agreement (P : Prog) (rt : Rt) (fuel : Nat) (e : Expr) (cells : List LCell) (env : Env)
+    (σ : Store) (st₁ st₂ : SNode) (hl : LayOkL cells) (hc : Covers P cells e) (hag : AgreeN cells st₁ st₂) :
+    SRel (RE cells) (eval fuel P rt env e σ st₁) (eval fuel P rt env e σ st₂) :=
+  (eval_agree P rt fuel).1 e cells env σ st₁ st₂ hl hc hag
+
+/-- trees that conform to a layout (with `self` values of the declared shapes) and serialise to the same words agree:
+the flat words determine everything the evaluator's accessors can read -/
+theorem C05_same_words_agree (lay : LNode) (a b : SNode) (ha : ConformsS lay a) (hb : ConformsS lay b)
+    (h : serialize lay a = serialize lay b) : Agree lay a b := agree_of_words lay a b ha hb h
+
+/-- the values a function instance returns, sample after sample (`instRun`: zero-initialise `self`, evaluate the body,
+store the returned value — what `eval`'s `call` and `Machine.step` do), depend only on the instance's flat state words:
+any run length, whatever time / environment / store each sample supplies -/
+theorem C05_same_words_same_eval_future (fuel : Nat) (P : Prog) (lay : LNode) (body : Expr)
+    (samples : List (Rt × Env × Store)) (a b : SNode)
+    (hl : lay.Ok) (hc : Covers P lay.cells body) (ha : ConformsS lay a) (hb : ConformsS lay b)
+    (h : serialize lay a = serialize lay b) :
+    instRun fuel P lay.self body samples a = instRun fuel P lay.self body samples b :=
+  instRun_agree fuel P lay body hl hc samples a b (agree_of_words lay a b ha hb h)
+
+/-! non-vacuity of the three theorems above: a body `self + mem(x) + f(delay(3, x, 1))` with `f(y) = mem(y)`,
+covered by the layout `[mem 0, delay 1 3, child 2 [mem 0]]`; the empty tree and the all-zero canonical tree are
+different trees that conform and have the same words -/
+example :
+    let P : Prog := ⟨[], [⟨"f", ["y"], .mem (.var "y") 0, none⟩], ⟨"dsp", ["x"], .lit 0, none⟩⟩
+    let body : Expr := .bin .add .self (.bin .add (.mem (.var "x") 0) (.call "f" [.delay 3 (.var "x") (.lit 1) 1] 2))
+    let lay : LNode := ⟨some .num, [.mem 0, .delay 1 3, .child 2 none [.mem 0]]⟩
+    lay.Ok ∧ Covers P lay.cells body ∧ ConformsS lay SNode.empty ∧ ConformsS lay (deserialize lay (serialize lay SNode.empty)) ∧
+    serialize lay SNode.empty = serialize lay (deserialize lay (serialize lay SNode.empty)) := by
+  intro P body lay
+  have hl : lay.Ok := by simp [lay, LNode.Ok, LayOkL, LayOk, sitesOf, LCell.site]
+  have hcov : Covers P lay.cells body := by
+    refine .bin .self (.bin (.mem .var (by simp [lay])) (.call (self := none) (cells' := [.mem 0]) ?_ (by simp [lay]) ?_ ?_))
+    · intro e he
+      simp only [List.mem_singleton] at he
+      subst he
+      exact .delay .var .lit (by simp [lay])
+    · intro d hd
+      simp [P, findFn] at hd
+      subst hd; rfl
+    · intro d hd
+      simp [P, findFn] at hd
+      subst hd
+      exact .mem .var (by simp)
+  have hc0 : ConformsS lay SNode.empty := by
+    refine ⟨?_, ?_⟩
+    · intro v hv; simp [SNode.empty, SNode.selfv] at hv
+    · simp [lay, ConfSL, ConfS, SelfOkS, SNode.empty, SNode.childAt, SNode.ringAt, SNode.cells, SNode.selfv, lookupCell,
+        Ring.zero]
+  have hlen : (serialize lay SNode.empty).length = lay.size := serialize_length lay _ (conformsS_conforms _ _ hc0)
+  have hr := serialize_deserialize lay _ hl hlen
+  exact ⟨hl, hcov, hc0, canon_conformsS lay _ hl hr.2, hr.1.symm⟩
 
 /-! non-vacuity: a layout with a tuple-valued `self`, a mem, a nested stateful call with scalar `self`, a delay and a
 mem, and a stateless-self child; the hypotheses hold for the empty tree and a payload, and the call does what the
